@@ -16,6 +16,8 @@ ASSUMPTIONS = [
     "reals, not floats; contraction off; Matrix->Vector contraction (eigh) is not exercised (cut, see C08)",
     "structure (layouts, argument tuples) is the enumerated bound; contents of every vector/matrix block are symbolic",
     "a partial trace returned as a (d,1) column is interpreted as the pure state |v><v|",
+    "engine E2 (CrossHair): reorder_vector/_matrix (all permutations of n <= 4), trace_out_matrix (all subsets, n <= 4), "
+    "measure/trace_out_vector (n <= 5) with symbolic arguments, per-condition timeout 90 s",
 ]
 BOUNDS = {
     "quick": "<=2 envelopes (Fock cut-off 2) + <=1 custom (dim 2); blocks of <=4 members; every ordered argument subset of size "
@@ -123,6 +125,9 @@ def cases(tier):
         out.append({"id": f"ce.merge/{lvl}/only", "world": w, "action": "ce.merge", "args": []})
         out.append({"id": f"ce.merge/{lvl}/then-combine-p1,p0", "world": w, "action": "ce.merge", "args": ["p1", "p0"]})
         out.append({"id": f"ce.merge/{lvl}/then-trace_out-p1,c0", "world": w, "action": "ce.merge+trace_out", "args": ["p1", "c0"]})
+    # engine E2: reorder / partial-trace / measure string generators with symbolic sizes, permutations and subsets
+    for fn in ("reorder_vector_ok", "reorder_matrix_ok", "trace_out_matrix_ok", "measure_and_trace_vector_ok"):
+        out.append({"id": f"crosshair/{fn}", "action": "crosshair", "fn": fn, "world": None, "args": []})
     return out
 
 
@@ -168,6 +173,8 @@ def _check_trace_out(B, W, pre, got, subs_, label):
 def scenario(B, case):
     from symx.world import World
 
+    if case["action"] == "crosshair":
+        return cm.crosshair_condition(B, "einsum_conditions.py", case["fn"])
     W = World(B, case["world"])
     h = W.h
     act = case["action"]
